@@ -26,6 +26,7 @@ DERIVE = ['derive(Clone, Copy, PartialEq, Eq)']
 WB = 'impl<T: Default + Clone> ExprBuilder<T>'
 TRAIT = 'trait ExprBuilder'
 IMPL = 'impl<T: Default + Clone> expr_builder::ExprBuilder for ExprBuilder<T>'
+TB = 'impl TemplateBody'
 SELF = [(r'Self::Expr', 'Expr<T>', None), (r'Self::Data', 'T', None)]
 
 ITEMS = [
@@ -110,10 +111,10 @@ ITEMS = [
     Fn(EXPR, 'impl Expr > fn lesseq', name='Expr::lesseq', wrap='impl Expr',
        ensures=[('lesseq', 'r.expr_kind == (ExprKind::BinaryApp { op: BinaryOp::LessEq, arg1: Arc::new(e1), arg2: Arc::new(e2) })')]),
     Fn(EXPR, 'impl Expr > fn and', name='Expr::and', wrap='impl Expr',
-       ensures=[('meaning', 'sem_same(r, mk(ExprKind::And { left: Arc::new(e1), right: Arc::new(e2) }))')],
+       ensures=[('meaning', 'sem_same(r, and_e(e1, e2))')],
        proof_tail='proof { lemma_fold_and(__vx_r, e1, e2); }'),
     Fn(EXPR, 'impl Expr > fn or', name='Expr::or', wrap='impl Expr',
-       ensures=[('meaning', 'sem_same(r, mk(ExprKind::Or { left: Arc::new(e1), right: Arc::new(e2) }))')],
+       ensures=[('meaning', 'sem_same(r, or_e(e1, e2))')],
        proof_tail='proof { lemma_fold_or(__vx_r, e1, e2); }'),
     Fn(EXPR, 'impl Expr > fn noteq', name='Expr::noteq', wrap='impl Expr',
        ensures=[('meaning', 'forall|ev: &Evaluator<\'_>, slots: SlotEnv| #[trigger] sem(ev, slots, r) == sem2(ev, slots, e1, e2, |a: ValueKind, b: ValueKind| Res::Val(vbool(!kind_eq(a, b))))')],
@@ -124,4 +125,78 @@ ITEMS = [
     Fn(EXPR, 'impl Expr > fn greatereq', name='Expr::greatereq', wrap='impl Expr',
        ensures=[('meaning', 'forall|ev: &Evaluator<\'_>, slots: SlotEnv| #[trigger] sem(ev, slots, r) == sem2(ev, slots, e1, e2, |a: ValueKind, b: ValueKind| sem_relation(BinaryOp::LessEq, vk(b), vk(a)))')],
        proof_tail='proof { lemma_not_bin(__vx_r, BinaryOp::Less, e1, e2); }'),
+    # --- scope constraints as expressions, and the policy condition
+    Type(POL, 'enum PrincipalOrResource', attrs=DERIVE),
+    Type(POL, 'enum EntityReference'),
+    Type(POL, 'enum PrincipalOrResourceConstraint'),
+    Type(POL, 'struct PrincipalConstraint'),
+    Type(POL, 'struct ResourceConstraint'),
+    Type(POL, 'enum ActionConstraint'),
+    Type(POL, 'struct TemplateBodyImpl'),
+    Type(POL, 'enum TemplateBody'),
+    Raw(file='spec2.rs', tag='spec'),
+    Fn(EXPR, 'impl From<PrincipalOrResource> for Var > fn from', name='Var::from<PrincipalOrResource>', wrap='impl Var',
+       sig_rewrites=[(r'fn from\(', 'fn from_por(', 1)], ensures=[('var', 'r == por_var(v)')]),
+    Fn('cedar-policy-core/src/ast/name.rs', 'impl From<PrincipalOrResource> for SlotId > fn from', name='SlotId::from<PrincipalOrResource>', wrap='impl SlotId',
+       sig_rewrites=[(r'fn from\(', 'fn from_por(', 1)], ensures=[('slot', 'r == por_slot(v)')]),
+    Fn(LIT, 'impl From<bool> for Literal > fn from', name='Literal::from<bool>', wrap='impl Literal',
+       sig_rewrites=[(r'fn from\(', 'fn from_bool(', 1)], ensures=[('lit', 'r == Literal::Bool(b)')]),
+    Fn(LIT, 'impl From<Arc<EntityUID>> for Literal > fn from', name='Literal::from<Arc<EntityUID>>', wrap='impl Literal',
+       sig_rewrites=[(r'fn from\(', 'fn from_arc_euid(', 1)], ensures=[('lit', 'r == Literal::EntityUID(ptr)')]),
+    Fn(POL, 'impl EntityReference > fn into_expr', name='EntityReference::into_expr', wrap='impl EntityReference',
+       rewrites=[(r'Expr::val\(euid\.clone\(\)\)', 'Expr::val(Literal::from_arc_euid(euid.clone()))', 1)],
+       ensures=[('ref', 'r.expr_kind == ref_expr(*self, slot).expr_kind')]),
+    Fn(POL, 'impl PrincipalOrResourceConstraint > fn as_expr', name='PrincipalOrResourceConstraint::as_expr', wrap='impl PrincipalOrResourceConstraint',
+       rewrites=[(r'Expr::val\(true\)', 'Expr::val(Literal::from_bool(true))', 1),
+                 (r'Expr::var\(v\.into\(\)\)', 'Expr::var(Var::from_por(v))', 5),
+                 (r'into_expr\(v\.into\(\)\)', 'into_expr(SlotId::from_por(v))', 3)],
+       ensures=[('meaning', 'sem_same(r, scope_expr(*self, v))')],
+       proof_tail='proof { lemma_scope(__vx_r, *self, v); }'),
+    Fn(POL, 'impl PrincipalConstraint > fn as_expr', name='PrincipalConstraint::as_expr', wrap='impl PrincipalConstraint',
+       ensures=[('meaning', 'sem_same(r, scope_expr(self.constraint, PrincipalOrResource::Principal))')]),
+    Fn(POL, 'impl ResourceConstraint > fn as_expr', name='ResourceConstraint::as_expr', wrap='impl ResourceConstraint',
+       ensures=[('meaning', 'sem_same(r, scope_expr(self.constraint, PrincipalOrResource::Resource))')]),
+    Fn(EXPR, IMPL + ' > fn set', name='ExprBuilder::set', wrap=WB, sig_rewrites=[(r'impl IntoIterator<Item = Expr<T>>', 'VxIter<Expr<T>>', 1)],
+       ensures=[('set', 'r.expr_kind is Set && r.expr_kind->Set_0@ == exprs.items()')]),
+    Fn(EXPR, 'impl Expr > fn set', name='Expr::set', wrap='impl Expr', sig_rewrites=[(r'impl IntoIterator<Item = Expr>', 'VxIter<Expr>', 1)],
+       ensures=[('set', 'r.expr_kind is Set && r.expr_kind->Set_0@ == exprs.items()')]),
+    Fn(POL, 'impl ActionConstraint > fn euids_into_expr', name='ActionConstraint::euids_into_expr', wrap='impl ActionConstraint',
+       sig_rewrites=[(r'impl IntoIterator<Item = Arc<EntityUID>>', 'VxIter<Arc<EntityUID>>', 1)],
+       rewrites=[(r'\.map\(Expr::val\)', '.map(|e: Arc<EntityUID>| -> (x: Expr) ensures x.expr_kind == ExprKind::<()>::Lit(Literal::EntityUID(e)) { Expr::val(Literal::from_arc_euid(e)) })', 1)],
+       ensures=[('set', 'r.expr_kind is Set && r.expr_kind->Set_0@.len() == euids.items().len() && forall|i: int| 0 <= i < euids.items().len() ==> (#[trigger] r.expr_kind->Set_0@[i]).expr_kind == ExprKind::<()>::Lit(Literal::EntityUID(euids.items()[i]))')]),
+    Fn(POL, 'impl ActionConstraint > fn as_expr', name='ActionConstraint::as_expr', wrap='impl ActionConstraint',
+       rewrites=[(r'Expr::val\(true\)', 'Expr::val(Literal::from_bool(true))', 1),
+                 (r'Expr::val\(euid\.clone\(\)\)', 'Expr::val(Literal::from_arc_euid(euid.clone()))', 1),
+                 (r'euids\.iter\(\)\.cloned\(\)', 'vx_vec_iter(euids).cloned()', 1),
+                 (r'"Invalid action constraint"\.to_string\(\)', 'vx_string("Invalid action constraint")', 1)],
+       ensures=[('shape', 'is_action_expr(r, *self)')]),
+    Fn(POL, TB + ' > fn loc', name='TemplateBody::loc', wrap=TB),
+    Fn(POL, TB + ' > fn principal_constraint_expr', name='TemplateBody::principal_constraint_expr', wrap=TB,
+       rewrites=[(r'DEFAULT_PRINCIPAL_CONSTRAINT\.as_expr\(\)', 'vx_default_principal_constraint().as_expr()', 1)],
+       ensures=[('meaning', 'sem_same(r, scope_expr(self.pc(), PrincipalOrResource::Principal))')]),
+    Fn(POL, TB + ' > fn resource_constraint_expr', name='TemplateBody::resource_constraint_expr', wrap=TB,
+       rewrites=[(r'DEFAULT_RESOURCE_CONSTRAINT\.as_expr\(\)', 'vx_default_resource_constraint().as_expr()', 1)],
+       ensures=[('meaning', 'sem_same(r, scope_expr(self.rc(), PrincipalOrResource::Resource))')]),
+    Fn(POL, TB + ' > fn action_constraint_expr', name='TemplateBody::action_constraint_expr', wrap=TB,
+       rewrites=[(r'DEFAULT_ACTION_CONSTRAINT\.as_expr\(\)', 'vx_default_action_constraint().as_expr()', 1)],
+       ensures=[('shape', 'is_action_expr(r, self.ac())')]),
+    Fn(POL, TB + ' > fn non_scope_constraints', name='TemplateBody::non_scope_constraints', wrap=TB,
+       rewrites=[(r'non_scope_constraints\.as_ref\(\)\.map\(\|e\| e\.as_ref\(\)\)', 'vx_opt_arc_ref(non_scope_constraints)', 1),
+                 (r'Some\(&DEFAULT_ERROR_EXPR\)', 'Some(vx_default_error_expr_ref())', 1)],
+       ensures=[('ns', 'self is TemplateBody ==> r == (match self.ns() { Some(e) => Some(&*e), None => None::<&Expr> })'), ('error', 'self is TemplateBodyError ==> r is Some && r->Some_0.expr_kind is Error')]),
+    Fn(POL, TB + ' > fn condition', name='TemplateBody::condition', wrap=TB,
+       rewrites=[(r'self\.non_scope_constraints\(\)\s*\.cloned\(\)\s*\.unwrap_or_else\(\|\| Expr::val\((true|false)\)\)',
+                  r'vx_opt_cloned(self.non_scope_constraints()).unwrap_or_else(|| -> (x: Expr) ensures x.expr_kind == ExprKind::<()>::Lit(Literal::Bool(\1)) { Expr::val(Literal::from_bool(\1)) })', 1),
+                 (r'DEFAULT_ERROR_EXPR\.as_ref\(\)\.clone\(\)', 'vx_default_error_expr()', 1)],
+       ensures=[('meaning', 'self is TemplateBody ==> exists|a: Expr| is_action_expr(a, self.ac()) && sem_same(r, cond_expr(self.pc(), a, self.rc(), self.ns()))'),
+                ('error', 'self is TemplateBodyError ==> r.expr_kind is Error')],
+       proof_tail='''proof {
+            let pc = self.pc(); let rc = self.rc(); let ns = self.ns(); let ac = self.ac(); let r = __vx_r;
+            assert forall|p: Expr, a: Expr, rr: Expr, n: Expr, x1: Expr, y1: Expr, x2: Expr, y2: Expr, x3: Expr|
+                sem_same(p, scope_expr(pc, PrincipalOrResource::Principal)) && sem_same(rr, scope_expr(rc, PrincipalOrResource::Resource))
+                && sem_same(n, ns_expr(ns))
+                && #[trigger] sem_same(x1, and_e(rr, n)) && y1.expr_kind == x1.expr_kind && #[trigger] sem_same(x2, and_e(a, y1)) && y2.expr_kind == x2.expr_kind
+                && #[trigger] sem_same(x3, and_e(p, y2)) && r.expr_kind == x3.expr_kind
+                implies sem_same(r, cond_expr(pc, a, rc, ns)) by { lemma_cond(r, p, a, rr, n, x1, y1, x2, y2, x3, pc, rc, ns); }
+        }'''),
 ]
